@@ -23,7 +23,7 @@ RULE = ('random mixtures of 1..8 substances (random formula trees rendered to te
         'isotope mode, component texts, amounts, k)')
 SHARDS = {'quick': 16, 'thorough': 16}
 MIN_NONTRIVIAL = {'quick': 250, 'thorough': 8000}
-TIME_CAP = {'quick': 45, 'thorough': 780}
+TIME_CAP = {'quick': 300, 'thorough': 3600}
 REQUIRED_CLASSES = ['material-number-fraction', 'material-mass-fraction', 'substance-counts', 'dict-form', 'string-form',
                     'natural', 'most-abundant', 'single-component', 'components>=5', 'proportion-span>=1e4',
                     'scaling-k<1', 'scaling-k>1', 'duality-number-to-mass', 'duality-mass-to-number',
